@@ -272,6 +272,7 @@ class CallListerVisitor(ast.NodeVisitor):
         self.namespace = self.namespace.parent
 
     visit_Lambda = visit_FunctionDef
+    visit_AsyncFunctionDef = visit_FunctionDef
 
     def visit_ClassDef(self, node):
         self.namespace[node.name] = Unknown(node)
